@@ -8,6 +8,9 @@ Decided (find_last_valid_footer):
   SCAN-C31b the scan is backward and monotone: candidates come from memrchr over bytes[..search_end] and every
             rejected candidate sets search_end = pos (strictly smaller), so the first accepted candidate is the one
             ending at the highest offset; the loop cannot return a candidate it has not decoded.
+  HASH-C31c CommitFooter::hash_matches answers with one full-width equality between the BLAKE3 digest of exactly its
+            slice argument (new/update/finalize or blake3::hash, no sub-slicing) and self.toc_hash (no sub-slicing); it
+            has no other exit value (a conditional early false/true would reject a valid or accept an invalid footer).
 Not decided: the loop-invariant argument itself (termination / highest offset) beyond these shape facts."""
 from . import lib
 from .facts import Place, op_place
@@ -117,3 +120,48 @@ def run(ctx):
             ctx.bad('SCAN-C31b', fn, 'the loop can revisit memrchr without shrinking the search window (possible livelock / repeated candidate)', line=mr[0].line, detail='scan-no-progress')
         else:
             ctx.ok('SCAN-C31b', fn, 'every path back to memrchr shrinks the search window', line=mr[0].line)
+    hash_rule(ctx, F)
+
+
+HASH_SIDE = {'new', 'update', 'finalize', 'hash', 'as_bytes', 'as_slice', 'as_ref', 'from', 'into', 'deref', 'borrow', 'clone'}
+FIELD_SIDE = {'as_slice', 'as_ref', 'from', 'into', 'deref', 'borrow', 'clone'}
+EQ_NAMES = {'eq', 'ct_eq', 'constant_time_eq', 'constant_time_eq_32'}
+
+
+def hash_rule(ctx, F):
+    ctx.rule('HASH-C31c', 'hash_matches = (blake3(toc_bytes) == self.toc_hash), full width, single exit value')
+    fn = ctx.need('HASH-C31c', 'CommitFooter::hash_matches')
+    if fn is None:
+        return
+    ctx.touch(fn, len(fn.blocks))
+    problems = []
+    d = lib.defs(fn).get(0, [])
+    eqs = [x['call'] for x in d if x['kind'] == 'call' and x['call'].name in EQ_NAMES]
+    if len(d) != 1 or len(eqs) != 1 or lib.bool_switches(fn) or lib.variant_switches(fn):
+        problems.append('the result is not a single equality (defs of the return place: %d, branches: %d)' % (len(d), len(lib.bool_switches(fn)) + len(lib.variant_switches(fn))))
+    else:
+        e = eqs[0]
+        sides = [lib.slice_back(fn, e.args[i:i + 1], through_calls=True, at=(e.bb, None)) for i in (0, 1)]
+        hs = [s for s in sides if {'finalize', 'hash'} & {c.name for c in s.calls}]
+        fs = [s for s in sides if s.has_field('CommitFooter', 'toc_hash') and not ({'finalize', 'hash'} & {c.name for c in s.calls})]
+        if len(hs) != 1 or len(fs) != 1:
+            problems.append('the equality does not compare a BLAKE3 digest with self.toc_hash')
+        else:
+            h, f = hs[0], fs[0]
+            extra = {c.name for c in h.calls} - HASH_SIDE
+            if extra or h.aggs or h.ops:
+                problems.append('digest side passes through %s' % sorted(extra | set(h.aggs) | set(h.ops)))
+            if 2 not in h.args or h.fields:
+                problems.append('the digest is not taken over the slice argument alone')
+            extra = {c.name for c in f.calls} - FIELD_SIDE
+            if extra or f.aggs or f.ops or f.fields != {('CommitFooter', 'toc_hash')}:
+                problems.append('stored-hash side is not the whole toc_hash field (%s)' % sorted(extra | set(f.aggs) | set(f.ops)))
+            for u in [c for c in fn.calls() if c.name in ('update', 'hash')]:
+                us = lib.slice_back(fn, u.args[-1:], through_calls=True, at=(u.bb, None))
+                if us.calls or us.aggs or us.ops or 2 not in us.args:
+                    problems.append('the hashed bytes are not the whole slice argument')
+    ctx.evaluations += 5
+    if problems:
+        ctx.bad('HASH-C31c', fn, 'hash_matches: ' + '; '.join(problems), detail='hash-eq:' + '|'.join(p.split(' (')[0] for p in problems))
+    else:
+        ctx.ok('HASH-C31c', fn, 'one full-width equality between blake3(slice argument) and self.toc_hash; no other exit value')
